@@ -166,7 +166,7 @@ def nondet : List (String × String × String) := [
 def lockOps : List (String × List String) := [("Save", ["Lock", "Unlock"]), ("Load", ["RLock", "RUnlock"]), ("LoadByAddress", ["RLock", "RUnlock", "RLock", "RUnlock"])]
 
 /-- skeletons of the `init` functions per package (empty list: the package has none) -/
-def initFuncs : List (String × List String) := []
+def initFuncs : List (String × List String) := [("x/aol/types", ["call RegisterCodec", "call amino.Seal"])]
 
 /-- which of Route / Type / GetSignBytes / GetSigners / ValidateBasic each message type implements -/
 def msgMethods : List (String × List String) := [
